@@ -37,6 +37,110 @@ def run_jobs(jobs, par):
     return results
 
 
+def real_stage(tier, seed, V):
+    """Stage 2: real resources, real tracker process, 1-4 client processes."""
+    import os
+    import random
+    import shutil
+
+    from ..inproc import tracker_real
+
+    rng = random.Random(seed * 31 + 7)
+    n = 60 if tier == "quick" else 600
+    base = common.scratch_root()
+    jobs = []
+    for i in range(n):
+        d = os.path.join(base, "r%04d" % i)
+        os.makedirs(d)
+        ncl = rng.choice([1, 1, 2, 3, 4])
+        names = [("file", "fa"), ("file", "fb:c"), ("folder", "fd"), ("file", "fd/inner.txt"), ("semlock", "/lvt-%d-%d-%d" % (os.getpid(), seed, i))]
+        use = rng.sample(names, rng.randint(1, len(names)))
+        if ("file", "fd/inner.txt") in use and ("folder", "fd") not in use:
+            use.append(("folder", "fd"))
+        steps = []
+        created = set()
+        for _ in range(rng.randint(4, 22)):
+            rtype, name = rng.choice(use)
+            cmd = rng.choices(["REGISTER", "MAYBE_UNLINK", "UNREGISTER"], [5, 5, 1])[0]
+            if name == "fd/inner.txt" and ("folder", "fd") not in created:
+                rtype, name, cmd = "folder", "fd", "REGISTER"
+            if cmd == "REGISTER":
+                created.add((rtype, name))
+            steps.append([rng.randrange(ncl), cmd, name, rtype])
+        jobs.append({"repo": common.REPO, "dir": d, "n_clients": ncl, "steps": steps})
+    stats = {"cases": 0, "steps": 0, "destructions_observed": 0, "eof_sweeps_checked": 0, "multi_client_cases": 0, "inconclusive": 0}
+    samples = []
+    running = []
+    pending = list(jobs)
+    results = []
+    while pending or running:
+        while pending and len(running) < max(2, common.NCPU // 2):
+            j = pending.pop(0)
+            errf = open(os.path.join(j["dir"], "stderr.txt"), "ab")
+            p = subprocess.Popen([common.PY, "-m", "harness.inproc.tracker_real", json.dumps(j)], stdout=subprocess.PIPE, stderr=errf,
+                                 env=common.repo_env(), cwd=common.VERIF)
+            running.append((j, p, time.monotonic()))
+        for j, p, ts in list(running):
+            if p.poll() is not None:
+                out = p.stdout.read()
+                running.remove((j, p, ts))
+                results.append((j, out))
+            elif time.monotonic() - ts > 120:
+                p.kill()
+                running.remove((j, p, ts))
+                results.append((j, b""))
+        time.sleep(0.01)
+    for j, out in results:
+        try:
+            rep = json.loads(out.decode())
+        except ValueError:
+            stats["inconclusive"] += 1
+            V.inconc("real_tracker_case_failed")
+            continue
+        stats["cases"] += 1
+        stats["steps"] += len(rep["steps"])
+        stats["multi_client_cases"] += 1 if j["n_clients"] > 1 else 0
+        stats["destructions_observed"] += sum(1 for s_ in rep["steps"] if s_[4] and not s_[5])
+        viol = rep.get("violation")
+        if viol is None:
+            # wait for the tracker to see EOF and finish its end-of-life sweep
+            t1 = time.monotonic()
+            while os.path.exists("/proc/%d" % rep["tracker_pid"]) and time.monotonic() - t1 < 15:
+                time.sleep(0.005)
+            if os.path.exists("/proc/%d" % rep["tracker_pid"]):
+                viol = {"clause": "tracker_outlives_all_clients", "text": "tracker pid %d still alive 15 s after its last client exited" % rep["tracker_pid"]}
+            else:
+                stats["eof_sweeps_checked"] += 1
+                left = [k for k in rep["counted_at_end"] if tracker_real._exists(k[0], k[1])]
+                gone = [k for k in rep["uncounted_existing_at_end"] if not tracker_real._exists(k[0], k[1]) and not any(k[1].startswith(c[1] + "/") for c in rep["counted_at_end"] if c[0] == "folder")]
+                err = open(os.path.join(j["dir"], "stderr.txt"), errors="replace").read()
+                if left:
+                    viol = {"clause": "not_swept_at_end_of_life", "text": "still counted at end of life but not destroyed: %s" % left}
+                elif gone:
+                    viol = {"clause": "destroyed_after_unregister", "text": "unregistered / never counted resources destroyed by the end-of-life sweep: %s" % gone}
+                elif "FileNotFoundError" in err and any(c[0] == "folder" for c in rep["counted_at_end"]) and any(c[1].endswith("inner.txt") for c in rep["counted_at_end"]):
+                    viol = {"clause": "folders_not_last", "text": "the sweep hit FileNotFoundError on a tracked file inside a tracked folder: the folder was removed first\n" + err[-600:]}
+        if viol is not None:
+            rp = common.save_replay(PROP, "real-s%d-%d" % (seed, len(V.violations)), files={"job.json": j, "report.json": rep})
+            V.violation({"clause": viol["clause"], "stage": "real"}, viol["text"] + "\nsteps: " + json.dumps(j["steps"])[:1200], rp)
+        else:
+            V.ok()
+        if len(samples) < 2 and rep["steps"]:
+            samples.append({"n_clients": j["n_clients"], "steps": rep["steps"][:12]})
+        # leftovers of this case (unregistered resources, semaphores)
+        for st in j["steps"]:
+            if st[3] == "semlock":
+                try:
+                    import _multiprocessing
+
+                    _multiprocessing.sem_unlink(st[2])
+                except Exception:
+                    pass
+    shutil.rmtree(base, ignore_errors=True)
+    stats["samples"] = samples
+    return stats
+
+
 def main(tier):
     t0 = time.monotonic()
     seed = common.seed()
@@ -79,6 +183,7 @@ def main(tier):
     for e in errors[:3]:
         V.inconc("shard_failed")
         print("shard failed:\n" + e, file=sys.stderr)
+    real = real_stage(tier, seed, V)
     expected_exh = {L: 16 ** L for L in lens}
     exh_ok = all(exhaustive_counts.get(L) == n for L, n in expected_exh.items())
     cov = {
@@ -102,8 +207,9 @@ def main(tier):
         "longest_sequence": tot["max_len"],
         "shards": len(jobs),
         "shards_failed": len(errors),
+        "real_resource_stage": {k: v for k, v in real.items()},
     }
-    floor_ok = tot["evaluated"] >= 20000 and not errors and exh_ok
+    floor_ok = tot["evaluated"] >= 20000 and not errors and exh_ok and real["cases"] >= 20
     common.write_evidence(
         PROP, tier, "other", cov, time.monotonic() - t0, len(V.violations),
         [
